@@ -136,4 +136,20 @@ META = {
                 "connected only through the correspondence run, not by a theorem.",
         "technique": "Lean 4 proof: canonical-weight-vector invariant through Predictor::new; strict-decoder framing of the envelope; differential correspondence",
     },
+    "C08": {
+        "text": "Lean theorems: from ANY sentence state (reachable or not), update_raw(x) yields exactly the record from_raw(x) "
+                "constructs, so the probe update_raw(x); predict; [fill_tags] equals the same probe on a fresh sentence as a value of "
+                "the whole sentence record (scores, boundaries, tags, tag count, stored tag scores, predictor reference) — C08_reuse, "
+                "C08_reuse_history; and for one predictor shared by many threads, every interleaving of calls gives each thread the "
+                "result of its own calls run sequentially (C08_interleaving, induction over schedules on the functional model). The "
+                "history operations are the datatype HOp whose semantics the driver executes, so the correspondence run (random "
+                "histories incl. filters, failing updates, four predictors) ties exactly these definitions to /repo. Thread clause: "
+                "16-thread run against sequential results + rustc's Send/Sync check + source scan for interior mutability.",
+        "design_ref": "DESIGN.md §6 C08",
+        "note": _common_note + "PARTIAL on two points: (1) 'never panics' for every operation of a history is established for updates/reset (C05), "
+                "predict on well-formed models (C01), filters (C15) and, once C06's proof is merged, fill_tags; a single theorem over "
+                "whole histories (C08_history_safe) is not stated yet — the oracle flags any panic in generated histories; (2) hardware "
+                "interleavings below call granularity are not modelled.",
+        "technique": "Lean 4 proof (record equality after update_raw; induction over schedules) + differential correspondence + multi-thread run",
+    },
 }
